@@ -139,7 +139,7 @@ def run_path(contract: FunctionContract, shape, prefix, repo=REPO):
         res.append({"id": o.id, "status": o.status, "time": o.time, "detail": o.detail, "kind": o.kind, "line": o.line,
                     "model": model_text(o.model) if o.model is not None else None, "path": list(o.path), "witness": wit, "shape": tag})
     xcheck = None
-    if contract.tier == "T2" and outcome is not None and hasattr(contract, "real") and it.modular_calls == 0:
+    if contract.tier == "T2" and outcome is not None and hasattr(contract, "real") and it.modular_calls == 0 and getattr(contract, "crosscheck", True):
         # CPython cross-check (DESIGN 10): a model of this path's condition, with the engine's predicted result, to be run on the real code
         try:
             if it.check() == "sat":
